@@ -19,7 +19,8 @@ import (
 const childEnv = "VERIF_C08_CHILD"
 
 type layout struct {
-	root           string
+	box            string // everything the monitor inspects: the configuration places and their surroundings
+	root           string // box/in: two levels below box, so that ../../.. from a directory still lands in box
 	flows          string
 	quotas         string
 	pathParams     string
@@ -30,8 +31,11 @@ type layout struct {
 	gen            string // generated path-param file (derived artefact, not part of the tree)
 }
 
-func mkLayout(root string) layout {
+func mkLayout(cwd string) layout {
+	box := filepath.Join(cwd, "box")
+	root := filepath.Join(box, "in")
 	return layout{
+		box:            box,
 		root:           root,
 		flows:          filepath.Join(root, "cfg", "flows"),
 		quotas:         filepath.Join(root, "cfg", "quotas"),
@@ -40,7 +44,7 @@ func mkLayout(root string) layout {
 		metricsUser:    filepath.Join(root, "cfg", "metrics.yaml"),
 		metricsDefault: filepath.Join(root, "internal", "metrics.yaml"),
 		outside:        filepath.Join(root, "outside"),
-		gen:            filepath.Join(root, "gen", "policies.yaml"),
+		gen:            filepath.Join(cwd, "gen", "policies.yaml"),
 	}
 }
 
